@@ -82,3 +82,7 @@ func (mq *MessageQueue) VerifState() VerifState {
 		Priority:    mq.priority,
 	}
 }
+
+// VerifWorkSignalled reports whether a work signal is waiting in outgoingWork (signalWorkReady has been
+// called since the run loop last took one).
+func (mq *MessageQueue) VerifWorkSignalled() bool { return len(mq.outgoingWork) > 0 }
